@@ -57,6 +57,17 @@ def run(ctx):
                     i1 = teneva.poi_to_ind(np.array([x, x]), a, b, n, kind)
                     ib = teneva.poi_to_ind(np.array([[x, x], [x, x]]), np.array([a, a]), np.array([b, b]), np.array([n, n]), kind)
                     ok = i1.shape == (2,) and ib.shape == (2, 2) and i1.dtype.kind in 'iu' and int(i1[0]) in want and len(set(ib.ravel().tolist()) | {int(i1[0]), int(i1[1])}) == 1
+                    # the same bound objects (float / integer arrays per dimension) reused over several calls with one single point:
+                    # every call answers as the first one and as the batch, and the caller's arrays are never written to
+                    A_, B_, N_ = np.array([a, a]), np.array([b, b]), np.array([n, n])
+                    hist = []
+                    for rep_ in range(2):
+                        hist.append(np.asarray(teneva.poi_to_ind(np.array([x, x]), A_, B_, N_, kind)).tolist())
+                        teneva.poi_scale(np.array([x, x]), A_, B_, kind)
+                        teneva.ind_to_poi(np.array([0, n - 1]), A_, B_, N_, kind)
+                    ok_h = all(h == [int(i1[0]), int(i1[1])] for h in hist) and np.array_equal(A_, [a, a]) and np.array_equal(B_, [b, b]) and np.array_equal(N_, [n, n])
+                    ctx.check(ok_h, 'grid:reused-bounds', 'poi_to_ind / poi_scale / ind_to_poi with the same array bounds reused for single points (x=%r, [%r, %r], n=%d, %s): answers %s vs %s, bounds afterwards %s %s %s'
+                              % (x, a, b, n, kind, hist, i1.tolist(), A_, B_, N_), case=row)
                     ctx.case(key=('near', n, c['u'], a, b, kind), nontrivial=not on_node,
                              sample={'n': n, 'u': c['u'], 'box': [a, b], 'kind': kind, 'nearest': sorted(idxs)} if n == 5 and not on_node and a == -3. else None)
                     ctx.check(ok, 'poi_to_ind:' + kind, 'poi_to_ind(x=%r, [%r, %r], n=%d, %s) = %s (batch %s); nearest node(s) in the grid parameter: %s'
